@@ -46,9 +46,22 @@ func autoDetectPacketSize(r io.Reader) (packetSize int, err error) {
 	var b = make([]byte, l)
 	shouldRewind, rerr := peek(r, b)
 	if rerr != nil {
+		if rerr == ErrNoMorePackets {
+			err = rerr
+			return
+		}
 		err = fmt.Errorf("astits: reading first %d bytes failed: %w", l, rerr)
 		return
 	}
+
+	// A failed detection consumes the bytes it has examined, so that the next attempt makes progress
+	defer func() {
+		if err != nil {
+			if br, ok := r.(*bufio.Reader); ok {
+				br.Discard(l)
+			}
+		}
+	}()
 
 	// Packet must start with a sync byte
 	if b[0] != syncByte {
@@ -73,7 +86,7 @@ func autoDetectPacketSize(r io.Reader) (packetSize int, err error) {
 				return
 			} else if n == -1 {
 				var ls = packetSize - (l - packetSize)
-				if _, err = r.Read(make([]byte, ls)); err != nil {
+				if _, err = io.ReadFull(r, make([]byte, ls)); err != nil {
 					err = fmt.Errorf("astits: reading %d bytes to sync reader failed: %w", ls, err)
 					return
 				}
@@ -92,6 +105,14 @@ func peek(r io.Reader, b []byte) (shouldRewind bool, err error) {
 	if br, ok := r.(*bufio.Reader); ok {
 		var bs []byte
 		bs, err = br.Peek(len(b))
+		if err == io.EOF {
+			// Stream is shorter than what we need to detect the packet size
+			if len(bs) == 0 {
+				err = ErrNoMorePackets
+				return
+			}
+			err = nil
+		}
 		if err != nil {
 			return
 		}
@@ -99,7 +120,12 @@ func peek(r io.Reader, b []byte) (shouldRewind bool, err error) {
 		return false, nil
 	}
 
-	_, err = r.Read(b)
+	if _, err = io.ReadFull(r, b); err == io.ErrUnexpectedEOF {
+		// Stream is shorter than what we need to detect the packet size
+		err = nil
+	} else if err == io.EOF {
+		err = ErrNoMorePackets
+	}
 	shouldRewind = true
 	return
 }
